@@ -297,6 +297,52 @@ def gen_cylinder(rng, i):
     return {'axis': a, 'axis_name': aname, 'base': base, 'r': r, 'h': h, 'unit': rng.choice(['mm', 'm'])}
 
 
+# ------------------------------------------------------------------ radius / height / base in DIFFERENT length units
+# metres per unit.  The dataclass stores what it is given: Cylinder.quadrature / volume / center must convert.  The
+# current source adds center_of_base and symmetry_line * height (center, hence quadrature: height and base must share
+# a unit, otherwise scipp raises UnitError) and subtracts r^2-terms from base^2-terms in beam_intersection (UnitError
+# whenever the radius has another unit than the base): a refusal (exception) is an admissible outcome, a returned
+# value is not exempt -- it is converted to the unit of center_of_base and compared like any other.
+LENGTH_UNITS = {'um': Fraction(1, 10 ** 6), 'mm': Fraction(1, 1000), 'cm': Fraction(1, 100), 'm': Fraction(1)}
+MIXED_PATTERNS = ['radius-differs', 'radius-differs', 'radius-differs', 'height-differs', 'all-differ']
+
+
+def gen_mixed_cylinder(rng, i):
+    """a solid 1e-3..1e3 (numbers as given, each in its own unit) whose radius (and, for the refusal classes, height)
+    is given in another length unit than center_of_base; `r`, `h` are the numbers as given, `unit` the unit of the base"""
+    if i < len(SPECIAL_AXES):
+        aname, a = SPECIAL_AXES[(5 * i + 6) % len(SPECIAL_AXES)]      # the F8b witness first, then through the list
+    else:
+        aname, a = 'random', unitvec(rng)
+    pattern = MIXED_PATTERNS[i % len(MIXED_PATTERNS)]
+    bu = rng.choice(['mm', 'cm', 'm'])
+    ru = rng.choice([x for x in LENGTH_UNITS if x != bu])
+    hu = bu if pattern == 'radius-differs' else rng.choice([x for x in LENGTH_UNITS if x != bu])
+    if pattern == 'height-differs':
+        ru = bu
+    f_r = float(LENGTH_UNITS[bu] / LENGTH_UNITS[ru])                  # number in ru = number in bu * f_r
+    f_h = float(LENGTH_UNITS[bu] / LENGTH_UNITS[hu])
+    for _ in range(200):
+        h_b = loguniform(rng, 1e-3, 1e3) / f_h                        # the height in the unit of the base
+        ratio = loguniform(rng, 0.05, 20.0) if rng.random() < 0.7 else loguniform(rng, 1e-4, 1e4)
+        r_b = h_b / ratio
+        if 1e-3 <= r_b * f_r <= 1e3:
+            break
+    else:
+        r_b = 1.0 / f_r
+    style = rng.choice(['origin', 'near', 'far'])
+    base = [0.0, 0.0, 0.0] if style == 'origin' else \
+        [rng.uniform(-1, 1) * (10.0 if style == 'near' else 1e3) for _ in range(3)]
+    # round numbers as a user writes them every third time (3 mm, 0.3 cm)
+    r, h = r_b * f_r, h_b * f_h
+    if i % 3 == 0:
+        r, h = float(f'{r:.1g}'), float(f'{h:.1g}')
+    return {'axis': a, 'axis_name': aname, 'base': base, 'r': r, 'h': h, 'unit': bu, 'r_unit': ru, 'h_unit': hu,
+            'pattern': pattern,
+            'r_in_base_unit': float(Fraction(r) * LENGTH_UNITS[ru] / LENGTH_UNITS[bu]),
+            'h_in_base_unit': float(Fraction(h) * LENGTH_UNITS[hu] / LENGTH_UNITS[bu])}
+
+
 def gen_rays(rng, c, n_each):
     a, B, r, h = c['axis'], c['base'], c['r'], c['h']
     e1, e2 = frame(rng, a)
@@ -647,6 +693,7 @@ HEADER = ('From Coq Require Import QArith ZArith String List Uint63.\n'
 FOOTER = 'Eval vm_compute in (report (map check cases)).\n'
 
 
+N_MIXED = {True: 15, False: 150}                # quick / thorough: solids with radius / height / base in different units
 N_EXACT = {True: 14, False: 90}                 # quick / thorough: 6 coordinate axes, 6 special in-plane axes, then random
 
 
@@ -657,6 +704,9 @@ def cyl_payload(c, kinds=(), scalar=False, with_cls=True):
            'unit': c['unit'], 'kinds': list(kinds), 'axis_name': c['axis_name'],
            'rays': [dict({'s': [hx(x) for x in ry['s']], 'n': [hx(x) for x in ry['n']]},
                          **({'cls': ry['cls'], 'dir': ry.get('dir', '')} if with_cls else {})) for ry in c['rays']]}
+    for k in ('r_unit', 'h_unit', 'pattern'):
+        if k in c:
+            out[k] = c[k]
     if scalar:
         seen, idx = set(), []
         for i, ry in enumerate(c['rays']):
@@ -688,6 +738,14 @@ def build_payload(rng, tier, seed=0):
         c = gen_exact_cylinder(rx, i)
         c['rays'] = gen_boundary_rays(rx, c, 2)
         cyls.append(cyl_payload(c, scalar=True))
+    # radius / height / base in different length units (their own random stream)
+    rm = random.Random(f'C18-mixed-units-{seed}')
+    for i in range(N_MIXED[tier == 'quick']):
+        c = gen_mixed_cylinder(rm, i)
+        # two rays in the unit of the base, from the solid as it is meant (lengths in the unit of the base)
+        c['rays'] = gen_rays(rm, dict(c, r=c['r_in_base_unit'], h=c['h_in_base_unit']), 1)[:2]
+        kinds = ['cheap'] + (['medium'] if i % 5 == 1 else []) + (['expensive'] if tier != 'quick' and i % 10 == 7 else [])
+        cyls.append(cyl_payload(c, kinds=kinds))
     trans = []
     for kind, n in (('cheap', 8), ('medium', 4), ('expensive', 2)):
         for i in range(n if tier == 'quick' else 6 * n):
@@ -734,18 +792,56 @@ def correspondence(ctx):
         for chk in ('line-sum', 'line-moment1'):
             add(f'(CTable "{chk}" 1 {k})', {'what': 'table', 'check': chk, 'table': f'normalised chebgauss({k})'})
 
-    n_rays = n_points = n_scalar = 0
+    n_rays = n_points = n_scalar = n_mixed_points = 0
+    mixed_count, refusals = {}, {}
     cls_count, exact_count, dir_count = {}, {}, {}
     axis_count = {}
     for ci, (c, r) in enumerate(zip(payload['cyls'], res['cyls'])):
         cdesc = {'axis': [fx(x) for x in c['axis']], 'base': [fx(x) for x in c['base']], 'r': fx(c['r']), 'h': fx(c['h']),
                  'unit': c['unit'], 'axis_name': c['axis_name']}
+        pattern = c.get('pattern')                    # radius / height given in another unit than center_of_base
+        if pattern:
+            cdesc.update(r_unit=c['r_unit'], h_unit=c['h_unit'], base_unit=c['unit'], units=pattern)
+            mixed_count[pattern] = mixed_count.get(pattern, 0) + 1
         if 'error' in r:
             ctx.violation('impl-raises', f'implementation raised on a valid cylinder {cdesc}: {r["error"]}',
                           {'cylinder': c, 'error': r['error']})
             continue
         st = r['stored']
         ct = cyl_term(st)
+        if pattern:
+            # radius and height in the unit of center_of_base (st: converted by scipp) against the conversion done here
+            for nm in 'rh':
+                want = float(Fraction(fx(c[nm])) * LENGTH_UNITS[c[nm + '_unit']] / LENGTH_UNITS[c['unit']])
+                if not (abs(fx(st[nm]) - want) <= 1e-14 * want and fx(st[nm + '_raw']) == fx(c[nm])):
+                    ctx.violation('mixed-units:stored', f'the cylinder does not hold the {nm} it was given: {cdesc} -> {st}',
+                                  {'case': dict(cdesc, what='inside', kind='cheap'), 'stored': st})
+            cdesc.update(r_in_base_unit=fx(st['r']), h_in_base_unit=fx(st['h']))
+
+            def refusal(entry, msg, kind=None):
+                """an entry point raised on a solid given in mixed units: admissible where the units of the operands the
+                source adds differ (height vs base: center, quadrature; radius vs base: beam_intersection)"""
+                refusals[f'{entry}:{pattern}'] = refusals.get(f'{entry}:{pattern}', 0) + 1
+                if pattern == 'radius-differs' and entry != 'beam_intersection':
+                    ctx.violation(f'mixed-units:{entry}:raises',
+                                  f'Cylinder.{entry} raised on a cylinder whose radius is given in {c["r_unit"]} and whose height and base '
+                                  f'are given in {c["unit"]}: {msg}: {cdesc}',
+                                  {'case': dict(cdesc, what='inside', kind=kind or 'cheap'), 'error': msg})
+            if 'L_error' in r:
+                refusal('beam_intersection', r['L_error'])
+            for kind, msg in r.get('quad_error', {}).items():
+                refusal('quadrature', msg, kind)
+            if 'volume_error' in r:
+                ctx.violation('mixed-units:volume:raises', f'Cylinder.volume raised: {r["volume_error"]}: {cdesc}',
+                              {'case': dict(cdesc, what='inside', kind='cheap'), 'error': r['volume_error']})
+            if 'center_error' in r:
+                refusal('center', r['center_error'])
+        # volume and centre as reported (in the unit of center_of_base)
+        if 'volume' in r:
+            add(f'(CVol {ct} {d_term(r["volume"])})', {'what': 'volume', 'cylinder': cdesc, 'volume': fx(r['volume']),
+                                                      'volume_unit': r.get('volume_unit')})
+        if 'center' in r:
+            add(f'(CCen {ct} {v_term(r["center"])})', {'what': 'centre', 'cylinder': cdesc, 'centre': [fx(x) for x in r['center']]})
         acls = axis_class([fx(x) for x in st['axis']])
         axis_count[acls] = axis_count.get(acls, 0) + 1
         stf = {'axis': [fx(x) for x in st['axis']], 'base': [fx(x) for x in st['base']], 'r': fx(st['r']), 'h': fx(st['h'])}
@@ -777,6 +873,8 @@ def correspondence(ctx):
                               {'cylinder': c, 'ray': c['rays'][i]})
             n_scalar += 1
         for kind in c['kinds']:
+            if kind not in r['quad']:
+                continue                                  # refused (mixed units), see above
             q = r['quad'][kind]
             ki = KINDS.index(kind)
             pts, ws = q['points'], q['weights']
@@ -788,7 +886,13 @@ def correspondence(ctx):
                 chunk = pts[lo:lo + 1500]
                 add(f'(CInside {ct} 12 [' + '; '.join(v_term(p) for p in chunk) + '])',
                     dict(base_desc, what='inside', first_index=lo))
-            add(f'(CWeights {ct} {ki} {kk} [' + '; '.join(d_term(w) for w in ws) + '])', dict(base_desc, what='weights'))
+            if pattern:
+                n_mixed_points += len(pts)
+                # k is selected from the stored numbers (self.height / self.radius).value, whatever their units
+                add(f'(CWeightsU {ct} {d_term(st["r_raw"])} {d_term(st["h_raw"])} {ki} {kk} [' + '; '.join(d_term(w) for w in ws) + '])',
+                    dict(base_desc, what='weights', weight_unit=q.get('w_unit')))
+            else:
+                add(f'(CWeights {ct} {ki} {kk} [' + '; '.join(d_term(w) for w in ws) + '])', dict(base_desc, what='weights'))
             # the model's points: all of them for small rules, a sample otherwise
             idx = list(range(len(pts))) if len(pts) <= 200 else sorted(rng.sample(range(len(pts)), 120)) + [0, len(pts) - 1]
             add(f'(CQuad {ct} {ki} {kk} [' + '; '.join(f'({i}%Z, {v_term(pts[i])}, {d_term(ws[i])})' for i in idx) + '])',
@@ -879,6 +983,12 @@ def correspondence(ctx):
                 'floating-point decision (n.a == 0, 0 <= -(b.a) <= h, n x a == 0, |b_perp| <= r, discriminant >= 0) is evaluated exactly or far '
                 'from its threshold is compared with the closed-solid value of the exact model to 1e-12 max(r,h) + 1e-13 |b| (no bracket); '
                 'one ray per start position also with 0-d operands; '
+                'MIXED UNITS: solids whose radius (3 of 5), height (1 of 5) or both (1 of 5) are given in another length unit '
+                '(um / mm / cm / m) than center_of_base (mm / cm / m), numbers 1e-3..1e3 each in its own unit, round numbers every third, '
+                'all axis classes: quadrature (every point inside, weights, model points), volume and center converted to the unit '
+                'of the base and compared with the model of the solid in that unit; beam_intersection with two rays; an entry point '
+                'that raises where the source adds operands of different units (height vs base: center, quadrature; radius vs base: '
+                'beam_intersection) counts as a refusal, a returned value is compared; '
                 'quadrature kinds cheap (all), medium (1/3 + special axes), expensive (1/10); '
                 'transmission: mu*r in {0.05,0.3,1}, lambda 0.1..20 A, detectors 3..3000 sizes away in random directions, units m/mm, '
                 'a random (possibly improper) orthogonal map + translation and the other-end description; '
@@ -890,6 +1000,8 @@ def correspondence(ctx):
         'observed': {'rays': n_rays, 'ray_classes': cls_count, 'rays_compared_with_the_exact_model': exact_count,
                      'boundary_ray_directions': dir_count, 'rays_repeated_with_0d_operands': n_scalar,
                      'quadrature_points_tested': n_points, 'axis_classes': axis_count,
+                     'mixed_unit_solids': mixed_count, 'mixed_unit_refusals': refusals,
+                     'mixed_unit_quadrature_points_tested': n_mixed_points,
                      'transmission_values': n_T, 'transmission_values_vs_model': n_model, 'angle_formula': getattr(ctx, 'angle', None),
                      'displaced_setups': n_disp,
                      'displaced_detectors': {c: sum(1 for x in disp_seen if x[2] == c) for c in ('near', 'far')},
@@ -942,12 +1054,15 @@ def violation_key(d, why):
         return f'table:{d["check"]}:{d["table"]}'
     if w == 'ray':
         return f'path:{d["class"]}'
+    mx = ':mixed-units' if isinstance(d.get('cylinder'), dict) and d['cylinder'].get('units') else ''
     if w == 'inside':
-        return f'quadrature:outside:axis-{d["axis_class"]}'
+        return f'quadrature:outside:axis-{d["axis_class"]}{mx}'
     if w == 'weights':
-        return f'weights:{why}:{d["kind"]}'
+        return f'weights:{why}:{d["kind"]}{mx}'
     if w == 'quad-model':
-        return f'quadrature:model:{d["kind"]}:axis-{d["axis_class"]}'
+        return f'quadrature:model:{d["kind"]}:axis-{d["axis_class"]}{mx}'
+    if w in ('volume', 'centre'):
+        return f'{w}{mx}'
     if w == 'transmission':
         chk = d.get('check')
         if chk in ('rigid', 'flip', 'translate'):
@@ -971,25 +1086,79 @@ def search(ctx, broken):
     return found
 
 
+def in_base_unit(c):
+    """the solid with radius and height expressed in the unit of center_of_base (conversion done here, exactly)"""
+    u = c['unit']
+    out = dict(c)
+    for nm in 'rh':
+        out[nm] = hx(float(Fraction(fx(c[nm])) * LENGTH_UNITS.get(c.get(nm + '_unit', u), 1) / LENGTH_UNITS.get(u, 1)))
+    return out
+
+
+def quad_statement(c, q):
+    """the property statement on one returned rule (points in the unit of center_of_base, weights in that unit cubed):
+    every point inside the solid, weights positive and summing to the volume, centroid = centre of the solid,
+    second radial moment = PI r^4 h / 2 (degree 2 in the disk: exact for every tabulated disk rule to 1e-6).
+    Returns [(key suffix, text, detail)]"""
+    cb = in_base_unit(c)
+    out = []
+    bad = outside_points(cb, q['points'])
+    if bad:
+        out.append(('outside', f'returns {len(bad)} points outside the solid, worst {bad[0]}', bad[0]))
+    a = [fx(x) for x in c['axis']]
+    b = [Fraction(fx(x)) for x in c['base']]
+    r, h = fx(cb['r']), fx(cb['h'])
+    ws = [fx(w) for w in q['weights']]
+    V = math.pi * r * r * h
+    if not all(w > 0 for w in ws):
+        out.append(('weight-not-positive', f'has a weight <= 0: {min(ws)!r}', min(ws)))
+    if not abs(math.fsum(ws) - V) <= 1e-9 * V:
+        out.append(('weight-sum', f'weights sum to {math.fsum(ws)!r}, the volume is {V!r}', math.fsum(ws) / V))
+    aF = [Fraction(x) for x in a]
+    aa = sum(x * x for x in aF)
+    dF = [[Fraction(fx(x)) - y for x, y in zip(p, b)] for p in q['points']]
+    ds = [[float(x) for x in d] for d in dF]
+    cen = [math.fsum(w * d[j] for w, d in zip(ws, ds)) / V for j in range(3)]
+    wantc = [x * h / 2 for x in a]
+    if not all(abs(x - y) <= 1e-9 * max(r, h) + 1e-12 * float(max(abs(z) for z in b)) for x, y in zip(cen, wantc)):
+        out.append(('centroid', f'centroid (relative to the base) {cen}, the centre of the solid is at {wantc}', cen))
+    # squared distance from the axis line, exactly (needles: |d|^2 - (d.a)^2 cancels 10 digits and more)
+    m2 = math.fsum(w * float(sum(x * x for x in d) - sum(x * y for x, y in zip(d, aF)) ** 2 / aa) for w, d in zip(ws, dF))
+    want2 = math.pi * r ** 4 * h / 2
+    if not abs(m2 - want2) <= 1e-6 * want2 + 1e-10 * V * r * float(max(abs(z) for z in b)):
+        out.append(('radial-moment', f'second radial moment {m2!r}, of the solid {want2!r} (ratio {m2 / want2:.6g})', m2 / want2))
+    return out
+
+
 def search_quadrature(ctx, broken):
+    """solids in one unit and solids whose radius / height are given in another length unit than the base; every kind"""
     rng = random.Random(ctx.seed + 1)
     found = []
     cyls = []
     for i in range(30):
         c = gen_cylinder(rng, i)
         cyls.append({'axis': [hx(x) for x in c['axis']], 'base': [hx(x) for x in c['base']], 'r': hx(c['r']), 'h': hx(c['h']),
-                     'unit': c['unit'], 'kinds': ['cheap'], 'rays': []})
+                     'unit': c['unit'], 'kinds': ['cheap'] + (['medium'] if i % 3 == 0 else []) + (['expensive'] if i % 10 == 4 else []),
+                     'rays': []})
+    for i in range(45 if ctx.tier == 'quick' else 300):
+        c = gen_mixed_cylinder(rng, i)
+        c['rays'] = []
+        cyls.append(cyl_payload(c, kinds=['cheap'] + (['medium'] if i % 3 == 1 else []) + (['expensive'] if i % 10 == 7 else []),
+                                with_cls=False))
     res = ctx.run_impl('c18_impl.py', {'mode': 'run', 'cyls': cyls, 'trans': []})
     for c, r in zip(cyls, res['cyls']):
         if 'error' in r:
             continue
-        bad = outside_points(c, r['quad']['cheap']['points'])
-        if bad:
-            a = [fx(x) for x in c['axis']]
-            key = f'quadrature:outside:axis-{axis_class(a)}'
-            ctx.violation(key, f'Cylinder.quadrature("cheap") returns points outside the solid: axis {a}, r={fx(c["r"])}, h={fx(c["h"])}: '
-                               f'{bad[0]}', {'cylinder': c, 'kind': 'cheap', 'worst': bad[0]})
-            found.append(key)
+        a = [fx(x) for x in c['axis']]
+        mx = ':mixed-units' if c.get('pattern') else ''
+        units = (f' (radius in {c["r_unit"]}, height in {c["h_unit"]}, base in {c["unit"]})' if mx else f' ({c["unit"]})')
+        for kind, q in r['quad'].items():
+            for what, text, detail in quad_statement(c, q):
+                key = f'quadrature:outside:axis-{axis_class(a)}{mx}' if what == 'outside' else f'quadrature:{what}:{kind}{mx}'
+                cyl = {k: c[k] for k in ('axis', 'base', 'r', 'h', 'unit', 'r_unit', 'h_unit', 'pattern') if k in c}
+                ctx.violation(key, f'Cylinder.quadrature("{kind}") {text}: axis {a}, r={fx(c["r"])}, h={fx(c["h"])}{units}',
+                              {'cylinder': cyl, 'kind': kind, 'statement': what, 'observed': detail, 'found_by': 'search'})
+                found.append(key)
     return found
 
 
@@ -1174,13 +1343,21 @@ def replay(ctx, obj):
     case = rep.get('case') or rep
     print(json.dumps({k: v for k, v in case.items() if k != 'payload'}, indent=1, default=str)[:3000])
     cyl = case.get('cylinder')
-    if isinstance(cyl, dict) and 'axis' in cyl and case.get('what') in ('inside', 'quad-model', None):
+    if isinstance(cyl, dict) and 'axis' in cyl and case.get('what') in ('inside', 'quad-model', 'weights', None):
         c = {'axis': [hx(fx(x)) for x in cyl['axis']], 'base': [hx(fx(x)) for x in cyl['base']], 'r': hx(fx(cyl['r'])), 'h': hx(fx(cyl['h'])),
              'unit': cyl.get('unit', 'mm'), 'kinds': [case.get('kind', 'cheap')], 'rays': []}
+        for k in ('r_unit', 'h_unit'):
+            if cyl.get(k):
+                c[k] = cyl[k]
         res = ctx.run_impl('c18_impl.py', {'mode': 'run', 'cyls': [c], 'trans': []})
-        bad = outside_points(c, res['cyls'][0]['quad'][c['kinds'][0]]['points'])
-        print(f'required: every quadrature point inside the solid; observed: {len(bad)} points outside' + (f', worst {bad[0]}' if bad else ''))
-        return 1 if bad else 0
+        r0 = res['cyls'][0]
+        if c['kinds'][0] not in r0.get('quad', {}):
+            print('Cylinder.quadrature raised:', r0.get('error') or r0.get('quad_error'))
+            return 1
+        fails = quad_statement(c, r0['quad'][c['kinds'][0]])
+        print('required: every quadrature point inside the solid, positive weights that sum to the volume, centroid at the centre, '
+              'second radial moment PI r^4 h / 2; observed: ' + ('; '.join(t for _, t, _ in fails) if fails else 'all hold'))
+        return 1 if fails else 0
     if case.get('what') == 'ray':
         cyl = case['cylinder']
         c = {'axis': [hx(x) for x in cyl['axis']], 'base': [hx(x) for x in cyl['base']], 'r': hx(cyl['r']), 'h': hx(cyl['h']),
